@@ -60,8 +60,13 @@ func GenC04(seed uint64, run int) *Trace {
 		n = r.Range(1, 6)
 	}
 	closedBias := false
+	restarts := r.Chance(1, 3) // a third of the histories contain restarts (close + reopen of the same file)
 	for i := 0; i < n; i++ {
 		var op Op
+		if restarts && !closedBias && r.Chance(1, 8) {
+			t.Ops = append(t.Ops, Op{Kind: Pick(r, []string{"restart_clean", "restart_final"})})
+			continue
+		}
 		v := r.Intn(100)
 		if closedBias {
 			v = r.Intn(140) // more typestate ops once something closed
